@@ -12,7 +12,8 @@ Atoms ==
   { [t |-> "bool", v |-> TRUE], [t |-> "bool", v |-> FALSE], [t |-> "null"] } \cup
   { [t |-> "bytes", b |-> x] : x \in { <<>>, <<97>>, <<49, 58>>, <<44>>, <<49, 50, 58, 97, 44>>, <<35, 93>>, <<48, 58, 126>>, <<0, 255>>,
                                    <<10>>, <<97, 10, 98>> } } \cup              \* (payloads containing the separator a reader may be told to ignore)
-  { [t |-> "text", cp |-> x] : x \in { <<>>, <<97>>, <<960>>, <<97, 8364>>, <<36, 44>>, <<233>>, <<99, 97, 102, 233, 255>> } }       \* pi, euro, e acute, y diaeresis
+  { [t |-> "text", cp |-> x] : x \in { <<>>, <<97>>, <<960>>, <<97, 8364>>, <<36, 44>>, <<233>>, <<99, 97, 102, 233, 255>>,
+                                       <<65279, 97>> } }       \* pi, euro, e acute, y diaeresis; text that BEGINS with U+FEFF (no byte order mark: a character)
 Keys == { <<107>>, <<97, 49>> }
 Lists(S) == { [t |-> "list", xs |-> <<>>] } \cup { [t |-> "list", xs |-> <<a>>] : a \in S } \cup { [t |-> "list", xs |-> <<a, b>>] : a \in S, b \in S }
 Dicts(S) == { [t |-> "dict", kv |-> <<>>] } \cup { [t |-> "dict", kv |-> << <<k, a>> >>] : k \in Keys, a \in S }
